@@ -8,7 +8,7 @@ from rnaverif.runner import D, HarnessError, ShardResult, check_case, run_hypoth
 PROP_ID = "C02"
 LEVEL = "exploration"
 RULE = (
-    "Same structure domains as C01 ((a) all matchings on <=N positions exhaustively, N=8 quick / 11 thorough; "
+    "Same structure domains as C01 ((a) all matchings on <=N positions exhaustively, N=9 quick / 11 thorough; "
     "(b) Hypothesis blow-ups with stems of 1-6 pairs so lengths, not only topology, decide the optimum; (c) "
     "path/star/cycle-shaped conflict graphs built on purpose), restricted to conflict components of <=10 stems. "
     "Oracle: independent exact optimiser (own stem finder, conflict graph, branch-and-bound over proper "
@@ -135,8 +135,8 @@ def shaped(kind: str, k: int, lens):
 def plan(tier, seed):
     specs = []
     if tier == "quick":
-        N, K = 8, 8
-        hyp = [(70, 7)] * 8
+        N, K = 9, 16
+        hyp = [(150, 7)] * 16
     else:
         N, K = 11, 64
         hyp = [(1200, 10)] * 16
@@ -144,7 +144,7 @@ def plan(tier, seed):
         specs.append({"kind": "exhaustive", "N": N, "slice": k, "of": K})
     for idx, (n, m) in enumerate(hyp):
         specs.append({"kind": "blowup", "examples": n, "max_abstract": m, "seed": seed * 1000 + idx})
-    specs.append({"kind": "shaped", "examples": 60 if tier == "quick" else 2000, "seed": seed * 1000 + 99})
+    specs.append({"kind": "shaped", "examples": 300 if tier == "quick" else 2000, "seed": seed * 1000 + 99})
     return specs
 
 
